@@ -53,11 +53,17 @@ class Server(object):
     def __init__(self):
         self.outstanding = {}       # conn -> {stream: (tag, msg)}
         self.received = []          # (conn idx, tag, stream, msg) in arrival order
+        self.snap = []              # per received message: field values at send time
 
     def on_push(self, conn, data):
         kind, tag, stream, msg = data
         d = self.outstanding.setdefault(conn, {})
         self.received.append((conn.idx, tag, stream, msg))
+        # the message object is reused and mutated by retries: snapshot what was on the wire
+        self.snap.append(dict(consistency_level=getattr(msg, 'consistency_level', None),
+                              paging_state=getattr(msg, 'paging_state', None), kind=type(msg).__name__,
+                              query=getattr(msg, 'query', None), query_id=getattr(msg, 'query_id', None),
+                              keyspace=getattr(msg, 'keyspace', None)))
         return d, tag, stream, msg
 
 
